@@ -140,6 +140,33 @@ type CmdOpts struct {
 	Platforms bool // draw platform tags
 	NoPipe    bool // never set the pipeline flag / pipe text
 	NoBlank   bool // never generate a blank command line
+	Long      bool // sometimes a description of 300-700 bytes whose last word uses letters found nowhere before it
+	Heavy     bool // DB(): sometimes one entry gets a word repeated 255..1000 (rarely 65536+) times within one field
+}
+
+// headWords use only the letters a-m, tailWords only n-z: a query built from a tail word can
+// match a long text only through its very end.
+var headWords = []string{"black", "fame", "email", "like", "mall", "chef", "idea", "jade", "kid", "ham", "half", "deal", "back", "cafe", "milk", "bike", "high", "ice", "lab", "gem"}
+var tailWords = []string{"syntax", "zoom", "tryst", "sprout", "worry", "torpor", "nosy", "yours", "wyvern", "quoz", "putt", "sunny"}
+
+// LongText draws a text of 300-700 bytes made of head words, ended by one tail word.
+func LongText(t *rapid.T) string {
+	n := rapid.IntRange(55, 120).Draw(t, "long-words")
+	ws := make([]string, 0, n+1)
+	for i := 0; i < n; i++ {
+		ws = append(ws, headWords[(i*7+n)%len(headWords)])
+	}
+	ws = append(ws, rapid.SampledFrom(tailWords).Draw(t, "long-tail"))
+	return strings.Join(ws, " ")
+}
+
+// LongTail returns the last word of a LongText-style description ("" if c has none).
+func LongTail(c *database.Command) string {
+	if len(c.Description) < 257 {
+		return ""
+	}
+	f := strings.Fields(c.Description)
+	return f[len(f)-1]
 }
 
 // Command draws one command entry.
@@ -161,6 +188,9 @@ func Command(o CmdOpts) *rapid.Generator[database.Command] {
 			if rapid.Bool().Draw(t, "bare") {
 				c.Description, c.Keywords, c.Tags = rapid.SampledFrom([]string{"", "x"}).Draw(t, "short-desc"), nil, nil
 			}
+		}
+		if o.Long && rapid.IntRange(0, 9).Draw(t, "long-text") == 0 {
+			c.Description = LongText(t)
 		}
 		if !o.NoBlank && rapid.IntRange(0, 23).Draw(t, "blank-cmd") == 0 {
 			c.Command = rapid.SampledFrom([]string{"", " ", "  "}).Draw(t, "blank") // well-formed but blank command line
@@ -192,6 +222,30 @@ type DBClass string
 // DB draws a database (as a command list) and reports its class.
 // classes: weights for "empty","one","tie","small","medium" in that order (nil = default).
 func DB(t *rapid.T, o CmdOpts, classes []int) ([]database.Command, DBClass) {
+	cmds, cls := dbOfClass(t, o, classes)
+	if o.Heavy && len(cmds) > 0 && rapid.IntRange(0, 11).Draw(t, "heavy-repeat") == 0 {
+		c := &cmds[rapid.IntRange(0, len(cmds)-1).Draw(t, "heavy-entry")]
+		n := rapid.SampledFrom([]int{255, 256, 257, 300, 511, 512, 513, 1000}).Draw(t, "heavy-n")
+		if rapid.IntRange(0, 19).Draw(t, "very-heavy") == 0 {
+			n = rapid.SampledFrom([]int{65535, 65536, 65537}).Draw(t, "very-heavy-n")
+		}
+		hw := rapid.SampledFrom([]string{"echo", "retry", "loop", "zz", "tar"}).Draw(t, "heavy-word")
+		rep := strings.TrimSpace(strings.Repeat(hw+" ", n))
+		switch rapid.IntRange(0, 3).Draw(t, "heavy-field") {
+		case 0:
+			c.Command = rep
+		case 1:
+			c.Description = rep
+		case 2:
+			c.Keywords = []string{rep}
+		default:
+			c.Tags = strings.Fields(rep)
+		}
+	}
+	return cmds, cls
+}
+
+func dbOfClass(t *rapid.T, o CmdOpts, classes []int) ([]database.Command, DBClass) {
 	if classes == nil {
 		classes = []int{1, 2, 6, 9, 1}
 	}
@@ -617,4 +671,48 @@ func BriefDB(cmds []database.Command, n int) []any {
 		out = append(out, Brief(c))
 	}
 	return out
+}
+
+// HeavyWord returns the word of a Heavy-style field (one word repeated >= 255 times) in cmds, or "".
+func HeavyWord(cmds []database.Command) string {
+	check := func(s string) string {
+		if len(s) < 255*3 {
+			return ""
+		}
+		f := strings.Fields(s)
+		if len(f) >= 255 && f[0] == f[len(f)-1] && f[0] == f[len(f)/2] {
+			return f[0]
+		}
+		return ""
+	}
+	for i := range cmds {
+		c := &cmds[i]
+		for _, s := range []string{c.Command, c.Description, strings.Join(c.Keywords, " "), strings.Join(c.Tags, " ")} {
+			if w := check(s); w != "" {
+				return w
+			}
+		}
+	}
+	return ""
+}
+
+// SizedText draws a text of a chosen length built from runes of one width (1-4 bytes) or a
+// mix, so that its byte length and its rune count straddle different thresholds: code that
+// tests one and cuts by the other is only reached by such inputs. spaces adds blanks.
+func SizedText(t *rapid.T, spaces bool) string {
+	units := [][]rune{[]rune("a"), []rune("é"), []rune("д"), []rune("日"), []rune("語"), []rune("😀"), []rune("a日"), []rune("ab語д")}
+	u := units[rapid.IntRange(0, len(units)-1).Draw(t, "sized-unit")]
+	n := rapid.OneOf(
+		rapid.SampledFrom([]int{15, 16, 17, 20, 21, 24, 25, 33, 34, 44, 45, 46, 48, 49, 50, 51, 64, 85, 96, 97, 98, 100, 101, 127, 128, 129, 255, 256, 257, 333, 334, 500, 999, 1000}),
+		rapid.IntRange(1, 400),
+	).Draw(t, "sized-runes")
+	rs := make([]rune, 0, n)
+	for i := 0; len(rs) < n; i++ {
+		if spaces && i%7 == 6 {
+			rs = append(rs, ' ')
+			continue
+		}
+		rs = append(rs, u[i%len(u)])
+	}
+	return string(rs)
 }
